@@ -6,7 +6,7 @@ use crate::sip::Variant;
 use grin_core::global::{self, ChainTypes};
 use grin_core::pow::{self, PoWContext, Proof};
 use std::panic::{catch_unwind, AssertUnwindSafe};
-use std::sync::atomic::{AtomicBool, AtomicU64, Ordering};
+use std::sync::atomic::{AtomicBool, AtomicI64, AtomicU64, Ordering};
 use std::sync::{Arc, Mutex};
 use std::time::{Duration, Instant};
 
@@ -127,6 +127,9 @@ pub struct JobSpec {
 	pub source: Source,
 	/// keep rejected tuples too (explicit lists); exhaustive runs keep only non-rejects
 	pub keep_all: bool,
+	/// scheduling only: tuples for which this returns true are not verified in the main pass but
+	/// collected in `deferred` (the caller runs them afterwards, see `exhaust`)
+	pub defer: Option<Arc<dyn Fn(&[u64]) -> bool + Send + Sync>>,
 }
 
 #[derive(Default)]
@@ -136,6 +139,7 @@ pub struct JobResult {
 	pub kept: Vec<(Vec<u64>, Verdict)>,
 	pub hangs: u64,
 	pub complete: bool,
+	pub deferred: Vec<Vec<u64>>,
 }
 
 struct Shared {
@@ -148,6 +152,7 @@ fn spawn_worker(spec: &JobSpec, source: Source, carry: JobResult) -> Arc<Shared>
 	let sh = Arc::new(Shared { count: AtomicU64::new(0), done: AtomicBool::new(false), state: Mutex::new((source, carry)) });
 	let sh2 = sh.clone();
 	let (var, eb, seed, k, chain, keep_all) = (spec.var, spec.edge_bits, spec.seed, spec.proof_size, spec.chain, spec.keep_all);
+	let defer = spec.defer.clone();
 	std::thread::spawn(move || {
 		global::set_local_chain_type(chain);
 		let header = header_for(seed);
@@ -162,6 +167,16 @@ fn spawn_worker(spec: &JobSpec, source: Source, carry: JobResult) -> Arc<Shared>
 				Some(t) => t,
 				None => break,
 			};
+			if let Some(d) = &defer {
+				if d(&t) {
+					let mut g = sh2.state.lock().unwrap();
+					g.1.deferred.push(t);
+					g.0.advance();
+					drop(g);
+					sh2.count.fetch_add(1, Ordering::Relaxed);
+					continue;
+				}
+			}
 			let v = verify_once(ctx.as_ref(), eb, &t);
 			let mut g = sh2.state.lock().unwrap();
 			g.1.calls += 1;
@@ -181,11 +196,13 @@ fn spawn_worker(spec: &JobSpec, source: Source, carry: JobResult) -> Arc<Shared>
 }
 
 pub fn hang_ms() -> u64 {
-	std::env::var("VERIF_HANG_MS").ok().and_then(|s| s.parse().ok()).unwrap_or(4000)
+	std::env::var("VERIF_HANG_MS").ok().and_then(|s| s.parse().ok()).unwrap_or(2500)
 }
 
 /// Run all jobs, at most `threads` at a time. Returns results in job order.
-pub fn run_jobs(specs: Vec<JobSpec>, threads: usize, max_hangs: u64) -> Vec<JobResult> {
+/// `budget` = how many more hung calls this process is willing to pay for (each leaves a spinning
+/// thread behind); a job that hits a hang when the budget is spent is returned incomplete.
+pub fn run_jobs(specs: Vec<JobSpec>, threads: usize, budget: &AtomicI64) -> Vec<JobResult> {
 	let n = specs.len();
 	let mut results: Vec<Option<JobResult>> = (0..n).map(|_| None).collect();
 	struct Active {
@@ -236,7 +253,7 @@ pub fn run_jobs(specs: Vec<JobSpec>, threads: usize, max_hangs: u64) -> Vec<JobR
 					r.kept.push((t, Verdict::Hang));
 					src.advance();
 					let idx = a.idx;
-					if r.hangs >= max_hangs {
+					if budget.fetch_sub(1, Ordering::SeqCst) <= 1 {
 						r.complete = false;
 						results[idx] = Some(r);
 						active.swap_remove(i);
